@@ -162,6 +162,19 @@ CLAIMED = {
             'Trusted: sx engine, ideal AEAD, C08 (window exactness inside the window). Retransmission identity (same seq/type/payload) '
             'is C05 L5.4 / C06 L6.4. Bounds: one pending entry in the step lemmas; scenario of 3 datagrams and <= 4 (thorough 6) deliveries.',
             'DESIGN.md §6 C04'),
+    'C01': ('One step of the real PacketHeader.from_bytes/_recv_datagram (Packet.from_bytes, windows, ack processing, message '
+            'dispatch) from an arbitrary symbolic endpoint state, for both endpoint kinds and each of the eight packet types: the '
+            'attacker datagram has every header field free, arbitrary body and trailing bytes (read symbolically by the parser) and '
+            'a CRC the attacker computed correctly; the AEAD is ideal (decrypt succeeds only on a ciphertext blob the peer object '
+            'really produced under the same key, nonce and associated data). Proven: not accepted, semantic state (key, status, '
+            'liveness clock, both windows, queues, pending sends, token, fragments) unchanged, nothing acknowledged, timed out or '
+            'delivered, counted as dropped. A second lemma takes a genuine sealed datagram from the real peer object and lets the '
+            'attacker rewrite any header field, cut the ciphertext anywhere and append junk: never accepted. Keyless endpoints: '
+            'nothing but the single expected hello is dispatched, no application message or fragment, no status change.',
+            'Trusted/assumed: AES-GCM is an ideal AEAD and CRC-32 is public (real-world strength of AES-GCM is not shown); sx engine, '
+            'struct model. Bounds: <= 2 inner messages, body <= 40 + tail <= 24 bytes (every byte the parser reads is symbolic), one '
+            'pending datagram; genuine datagram of one message <= 200 bytes. Identical copies are replays (C04). The server gate is C10/C11.',
+            'DESIGN.md §6 C01'),
 }
 
 NOT_YET = 'check not built yet in this round (planned: see DESIGN.md §6); not claimed'
